@@ -25,7 +25,10 @@ condition), and it should need something SPECIFIC to manifest - a particular int
 point, a multi-step sequence of operations, an unusual input, or two cooperating sites that each look fine alone - not something ordinary use
 would expose at once. Do not just delete a feature or raise an exception unconditionally.
 
-DELIVER, for each mutation you produce (aim for 2 different ones, directories {wt}/mutation1 and {wt}/mutation2):
+IMPORTANT: work in small steps and save files early - write mutation1/patch.diff, demo.py and README.md as soon as mutation1 works, before doing
+anything else; keep the whole session under ~40 tool calls.
+
+DELIVER, for each mutation you produce (one is enough, a second different one is welcome; directories {wt}/mutation1 and {wt}/mutation2):
   patch.diff  - `git diff` of the source change only (must apply with `git apply` to the unchanged tree)
   demo.py     - a small self-contained program that exits 0 on the unchanged tree and exits non-zero (printing what went wrong) with the change applied
   README.md   - what you changed, why it breaks the property, what it needs in order to manifest, which tests you ran and their result
